@@ -89,6 +89,16 @@ impl Run {
         });
         CURRENT.with(|c| *c.borrow_mut() = Some(run.clone()));
         crate::gate::reset();
+        let weak = Arc::downgrade(&run);
+        run.fabric.set_path_logger(Arc::new(move |src, dst, lost| {
+            if let Some(run) = weak.upgrade() {
+                run.obs(
+                    -1,
+                    "obs.path",
+                    json!({"src": src.to_string(), "dst": dst.to_string(), "lost": lost}),
+                );
+            }
+        }));
         run
     }
 
@@ -305,6 +315,14 @@ fn normalise(st: &mut RunState, node: i64, key: &str, v: Value) -> Value {
         }
         (_, Value::String(s)) if s.len() == 64 && s.bytes().all(|b| b.is_ascii_hexdigit()) => {
             pid_value(st, &s)
+        }
+        (_, Value::String(s)) if s.len() > 240 => {
+            // error texts may carry backtraces; keep the head only
+            let mut end = 240;
+            while !s.is_char_boundary(end) {
+                end -= 1;
+            }
+            Value::String(s[..end].replace('\n', " "))
         }
         (_, Value::Array(a)) => Value::Array(
             a.into_iter()
